@@ -446,11 +446,12 @@ func (sk *SpaceKeeper) StopWS(sid string) error {
 	sk.stateLock.Lock()
 	defer sk.stateLock.Unlock()
 
-	if ws, ok := sk.workSpaceIndex[allState].Get(sid); !ok || !ws.using {
+	ws, ok := sk.workSpaceIndex[allState].Get(sid)
+	if !ok || !ws.using {
 		return ErrWorkSpaceDoesNotExist
 	}
 
-	sk.queue.Delete(sid)
+	sk.cancelRequests(ws)
 
 	if ws, ok := sk.workSpaceIndex[engine.Plotting].Get(sid); ok {
 		// known that there's no more than one plotting workSpace at the same time
@@ -472,6 +473,13 @@ func (sk *SpaceKeeper) StopWS(sid string) error {
 	return nil
 }
 
+// cancelRequests voids every plot/mine request made for the workSpace so far, wherever it waits:
+// in the plotter's channel, in its queue, or popped but not yet started. Caller holds stateLock.
+func (sk *SpaceKeeper) cancelRequests(ws *WorkSpace) {
+	ws.epoch++
+	sk.queue.Delete(ws.id.String())
+}
+
 // RemoveWS should only be applied on registered/ready workSpace
 // WorkSpace in spaceKeeper workSpaceList would be removed
 func (sk *SpaceKeeper) RemoveWS(sid string) error {
@@ -484,7 +492,7 @@ func (sk *SpaceKeeper) RemoveWS(sid string) error {
 		return ErrWorkSpaceDoesNotExist
 	}
 
-	sk.queue.Delete(sid)
+	sk.cancelRequests(ws)
 
 	if ws, ok = sk.workSpaceIndex[engine.Registered].Get(sid); !ok {
 		if ws, ok = sk.workSpaceIndex[engine.Ready].Get(sid); !ok {
@@ -508,7 +516,7 @@ func (sk *SpaceKeeper) DeleteWS(sid string) error {
 		return ErrWorkSpaceDoesNotExist
 	}
 
-	sk.queue.Delete(sid)
+	sk.cancelRequests(ws)
 
 	if ws, ok = sk.workSpaceIndex[engine.Registered].Get(sid); !ok {
 		if ws, ok = sk.workSpaceIndex[engine.Ready].Get(sid); !ok {
